@@ -48,6 +48,10 @@ TRANSPARENT = {
     "std::sync::Mutex::lock": (0, ()),
     "std::sync::poison::mutex::Mutex::lock": (0, ()),
     "std::cell::Cell::new": (0, ()),
+    "std::option::Option::and_then": (0, ()),
+    "std::option::Option::ok_or_else": (0, ()),
+    "std::option::Option::ok_or": (0, ()),
+    "std::option::Option::take": (0, ()),
     "std::collections::HashMap::values": (0, ()),
     "std::collections::HashMap::iter": (0, ()),
     "core::slice::iter": (0, ()),
@@ -735,6 +739,12 @@ def chain_calls(fn, operand, limit=64):
             if si is None:
                 out.add(strip_generics(callee_name(node)))
                 out.add(strip_generics(node.get("callee") or ""))
+                for a in node["args"]:
+                    if a["k"] == "c" and "fn" in a:
+                        out.add(strip_generics(a["fn"]))
+                if strip_generics(callee_name(node)) in ("core::slice::get_mut", "std::vec::Vec::get_mut", "core::slice::get") and node["args"]:
+                    if op_place(node["args"][0]) is not None:
+                        work.append(node["args"][0]["pl"]["l"])
                 if transparent(node) is not None and node["args"]:
                     a = node["args"][transparent(node)[0]]
                     if op_place(a) is not None:
@@ -745,5 +755,83 @@ def chain_calls(fn, operand, limit=64):
                     work.append(rv["a"][0]["pl"]["l"])
                 elif rv["r"] in ("ref", "raw"):
                     work.append(rv["pl"]["l"])
+    out.discard("")
+    return out
+
+
+CLOSURE_RUNNERS = ("std::thread::LocalKey::with", "std::option::Option::map", "std::option::Option::and_then", "std::result::Result::map",
+                   "std::result::Result::and_then", "std::option::Option::unwrap_or_else", "std::option::Option::map_or_else")
+
+
+def chain_calls_ip(F, fn, operand=None, local=None, depth=0, _seen=None):
+    """like chain_calls, but follows the return value of crate-local callees and of closures run by
+    the usual combinators (LocalKey::with, Option::map/and_then, ...)"""
+    _seen = _seen if _seen is not None else set()
+    out = set()
+    work = []
+    if operand is not None and op_place(operand) is not None:
+        work.append(operand["pl"]["l"])
+    if local is not None:
+        work.append(local)
+    defs = fn.defs()
+    seen = set()
+    while work:
+        l = work.pop()
+        if l in seen:
+            continue
+        seen.add(l)
+        for (b, si, node) in defs.get(l, []):
+            if fn.is_cleanup(b):
+                continue
+            if si is None:
+                name = strip_generics(callee_name(node))
+                out.add(name)
+                out.add(strip_generics(node.get("callee") or ""))
+                for a in node["args"]:
+                    if a["k"] == "c" and "fn" in a:
+                        out.add(strip_generics(a["fn"]))
+                tr = transparent(node)
+                if tr is not None and node["args"]:
+                    a = node["args"][tr[0]]
+                    if op_place(a) is not None:
+                        work.append(a["pl"]["l"])
+                if name in ("core::slice::get_mut", "std::vec::Vec::get_mut", "core::slice::get") and node["args"] and op_place(node["args"][0]) is not None:
+                    work.append(node["args"][0]["pl"]["l"])
+                if depth < 4:
+                    targets = []
+                    g = F.fns.get(node.get("resolved") or "") or F.fns.get(node.get("callee") or "")
+                    if g is None and (node.get("local") or node.get("resolved_local")):
+                        g = next((x for x in F.fns.values() if strip_generics(x.path) == name), None)
+                    if g is not None:
+                        targets.append(g)
+                    if name in CLOSURE_RUNNERS:
+                        t2 = Tracer(fn)
+                        for a in node["args"]:
+                            for r in t2.roots_of_operand(a):
+                                if r.kind == "agg" and r.id in F.fns:
+                                    targets.append(F.fns[r.id])
+                                if r.kind == "const" and isinstance(r.id, str):
+                                    for x in F.fns.values():
+                                        if x.kind == "Closure" and x.path in r.id:
+                                            targets.append(x)
+                        # zero-sized closures appear as constants whose type names the closure
+                        for a in node["args"]:
+                            if a["k"] == "c" and "closure" in a and a["closure"] in F.fns:
+                                targets.append(F.fns[a["closure"]])
+                    for g in targets:
+                        if (g.path, 0) in _seen:
+                            continue
+                        _seen.add((g.path, 0))
+                        out |= chain_calls_ip(F, g, local=0, depth=depth + 1, _seen=_seen)
+            else:
+                rv = node["rv"]
+                if rv["r"] in ("use", "cast") and op_place(rv["a"][0]) is not None:
+                    work.append(rv["a"][0]["pl"]["l"])
+                elif rv["r"] in ("ref", "raw"):
+                    work.append(rv["pl"]["l"])
+                elif rv["r"] == "agg":
+                    for a in rv["a"]:
+                        if op_place(a) is not None:
+                            work.append(a["pl"]["l"])
     out.discard("")
     return out
